@@ -1,9 +1,28 @@
-"""Digest of process-global mutable state of pyasn1: module-level containers and
-the attributes of codec singleton instances.  A codec call is supposed to leave all
-of it alone ("no effect on ... configuration"), so the digest must be the same
-before and after any history of calls."""
+"""Process-global mutable state of pyasn1: enumeration, digest, and restoration.
+
+What is enumerated: module-level containers, the attribute dictionaries of codec and
+debug singleton instances (to depth 3), containers stored on classes defined by pyasn1
+(class-level caches are shared by every instance and every codec singleton), and mutable
+default arguments / function attributes of pyasn1 functions.  A codec call is supposed to
+leave all of it alone ("no effect on ... configuration"), or at least never let it change
+what another call returns.
+
+digest()   -- a brief, order-independent description; a difference is a reason to look
+              (a memo of immutable results is harmless), not a verdict.
+capture() / restore(saved)
+           -- the simulator's "process restart" fault: every enumerated container gets the
+              content it had when the process was pristine (after imports, before any codec
+              call).  Executing a task after restore() is executing it in a fresh process as
+              far as the enumerated state goes, at no fork cost.
+"""
 import sys
 import types
+
+_CONTAINERS = (dict, list, set)
+
+
+def _is_pyasn1_module(name):
+    return name == 'pyasn1' or name.startswith('pyasn1.')
 
 
 def _brief(v, depth=0):
@@ -25,20 +44,154 @@ def _brief(v, depth=0):
     return type(v).__name__
 
 
-def digest():
+def _singleton_like(v):
+    mod = getattr(type(v), '__module__', '')
+    return (mod.startswith('pyasn1.codec') or mod == 'pyasn1.debug') and hasattr(v, '__dict__') \
+        and not isinstance(v, (type, types.FunctionType, types.ModuleType))
+
+
+def containers():
+    """[(label, container)] in a deterministic order; each container object once."""
     out = []
-    for name in sorted(m for m in sys.modules if m == 'pyasn1' or m.startswith('pyasn1.')):
+    seen = set()
+
+    def add(label, obj, depth):
+        if id(obj) in seen:
+            return
+        if isinstance(obj, _CONTAINERS):
+            seen.add(id(obj))
+            out.append((label, obj))
+            if depth < 3:
+                items = obj.items() if isinstance(obj, dict) else enumerate(obj) if isinstance(obj, list) else ()
+                for k, x in items:
+                    if isinstance(x, _CONTAINERS) or _singleton_like(x):
+                        add(label + '[%s]' % repr(k)[:40], x, depth + 1)
+        elif _singleton_like(obj):
+            seen.add(id(obj))
+            out.append((label + '.__dict__', obj.__dict__))
+            if depth < 3:
+                for k, x in sorted(obj.__dict__.items()):
+                    if isinstance(x, _CONTAINERS) or _singleton_like(x):
+                        add(label + '.' + k, x, depth + 1)
+
+    for name in sorted(m for m in sys.modules if _is_pyasn1_module(m)):
         mod = sys.modules[name]
         if mod is None:
             continue
         for k, v in sorted(vars(mod).items()):
             if k.startswith('__'):
                 continue
-            if isinstance(v, (types.FunctionType, type, types.ModuleType)):
+            if isinstance(v, type):
+                if getattr(v, '__module__', None) != name:
+                    continue
+                for ck, cv in sorted(vars(v).items(), key=lambda kv: kv[0]):
+                    if ck.startswith('__'):
+                        continue
+                    if isinstance(cv, _CONTAINERS):
+                        add('%s:%s.%s' % (name, k, ck), cv, 1)
+                    elif isinstance(cv, (types.FunctionType, classmethod, staticmethod)):
+                        fn = cv.__func__ if isinstance(cv, (classmethod, staticmethod)) else cv
+                        _function_state(add, '%s:%s.%s' % (name, k, ck), fn)
+            elif isinstance(v, types.FunctionType):
+                if getattr(v, '__module__', None) == name:
+                    _function_state(add, '%s:%s' % (name, k), v)
+            elif isinstance(v, types.ModuleType):
                 continue
-            b = _brief(v)
-            if isinstance(b, tuple):
-                out.append((name, k, b))
-            elif k.isupper() or k in ('LOG', '_LOG'):
-                out.append((name, k, b))
+            else:
+                add('%s:%s' % (name, k), v, 0)
+    return out
+
+
+def _function_state(add, label, fn):
+    for i, dv in enumerate(fn.__defaults__ or ()):
+        if isinstance(dv, _CONTAINERS):
+            add('%s(default %d)' % (label, i), dv, 2)
+    for k, dv in sorted((fn.__kwdefaults__ or {}).items()):
+        if isinstance(dv, _CONTAINERS):
+            add('%s(default %s)' % (label, k), dv, 2)
+    if fn.__dict__:
+        add('%s.__dict__' % label, fn.__dict__, 2)
+
+
+def digest():
+    out = []
+    for label, obj in containers():
+        out.append((label, _brief(obj)))
+    for name in sorted(m for m in sys.modules if _is_pyasn1_module(m)):
+        mod = sys.modules[name]
+        if mod is None:
+            continue
+        for k, v in sorted(vars(mod).items()):
+            if (k.isupper() or k in ('LOG', '_LOG')) and (isinstance(v, (int, str, bytes, bool, float)) or v is None):
+                out.append((name + ':' + k, repr(v)[:40]))
     return tuple(out)
+
+
+def _shape():
+    """Cheap fingerprint of what exists (not of what it holds): attribute counts of modules and of
+    their classes, and the scalar upper-case module attributes.  A container that appears later (a
+    lazily created class-level cache) changes it."""
+    out = []
+    for name in sorted(m for m in sys.modules if _is_pyasn1_module(m)):
+        mod = sys.modules[name]
+        if mod is None:
+            continue
+        d = vars(mod)
+        n = len(d)
+        for k, v in d.items():
+            if isinstance(v, type):
+                if getattr(v, '__module__', None) == name:
+                    n += 1000 * len(vars(v))
+            elif (k.isupper() or k in ('LOG', '_LOG')) and (isinstance(v, (int, str, bytes, bool, float)) or v is None):
+                out.append((name, k, repr(v)[:40]))
+        out.append((name, n))
+    return tuple(out)
+
+
+class Captured(list):
+    shape = None
+
+
+def capture():
+    """Shallow copies of every enumerated container (call while the process is pristine)."""
+    c = Captured((label, obj, obj.copy()) for label, obj in containers())
+    c.shape = _shape()
+    return c
+
+
+def moved(captured):
+    """Labels of captured containers whose content differs from the captured content, plus
+    '<shape>' when attributes appeared, disappeared or scalar flags changed.  Cheap."""
+    out = [label for label, obj, saved in captured if not _same(obj, saved)]
+    if captured.shape is not None and _shape() != captured.shape:
+        out.append('<shape>')
+    return out
+
+
+def _same(obj, saved):
+    if len(obj) != len(saved):
+        return False
+    if isinstance(obj, dict):
+        for k, v in obj.items():
+            if k not in saved or saved[k] is not v:
+                return False
+        return True
+    if isinstance(obj, list):
+        return all(a is b for a, b in zip(obj, saved))
+    return obj == saved
+
+
+def restore(captured):
+    """Give every captured container its captured content back (identity of the container is
+    kept).  Returns the labels of the containers that had moved."""
+    moved = []
+    for label, obj, saved in captured:
+        if _same(obj, saved):
+            continue
+        moved.append(label)
+        obj.clear()
+        if isinstance(obj, list):
+            obj.extend(saved)
+        else:
+            obj.update(saved)
+    return moved
